@@ -77,7 +77,7 @@ def make_outcome(how):
     if kind == "val":
         return ("return", {"0": 0, "0.0": 0.0, "False": False, "''": "", "[]": [], "()": (), "x": "x", "obj": object(), "1": 1, "awaitable": Awaitable()}[what])
     if kind in ("exc", "base"):
-        cls = {"LookupError": LookupError, "UserExc": UserExc, "UserExcSub": UserExcSub, "ValueError": ValueError, "RuntimeError": RuntimeError, "FalsyExc": FalsyExc,
+        cls = {"LookupError": LookupError, "UserExc": UserExc, "UserExcSub": UserExcSub, "ValueError": ValueError, "RuntimeError": RuntimeError, "FalsyExc": FalsyExc, "TimeoutError": TimeoutError, "CancelledError": asyncio.CancelledError,
                "UserBase": UserBase, "SystemExit": SystemExit, "KeyboardInterrupt": KeyboardInterrupt, "GeneratorExit": GeneratorExit}[what]
         return ("raise", cls("from payload"))
     raise ValueError(how)
